@@ -214,7 +214,7 @@ def _traj_cases(tier):
 
 @st.composite
 def _traj_strategy(draw):
-  return {'outer': draw(st.integers(0, 6)), 'inner': draw(st.integers(1, 6)),
+  return {'outer': draw(st.sampled_from([2, 0, 1, 3, 4, 5, 6, 3])), 'inner': draw(st.sampled_from([2, 1, 3, 4, 5, 6, 3])),
           'start_with_input': draw(st.booleans()), 'post': draw(st.sampled_from(['id', 'select', 'affine'])),
           'struct': draw(st.sampled_from(['dict', 'tuple', 'nested'])),
           'scan': draw(st.sampled_from(['lax', 'pyloop', 'nested', 'nested_inner'])), 'fact': draw(st.integers(0, 7)),
@@ -241,8 +241,7 @@ def run_trajectory(case):
   post = _post(case['post'], struct)
   out = Outcome(nontrivial=(outer >= 2 and inner >= 2),
                 labels=[f'outer={outer}', f'inner={"1" if inner == 1 else ">1"}', f'start_with_input={swi}',
-                        f'post={case["post"]}', f'scan={case["scan"]}', f'struct={struct}',
-                        'outer=0' if outer == 0 else 'outer>0'],
+                        f'post={case["post"]}', f'scan={case["scan"]}', f'struct={struct}'],
                 units=outer * inner)
   # sequential definition
   states = [s0]
@@ -287,16 +286,16 @@ def run_trajectory(case):
         return bad
   if case['scan'] == 'pyloop':
     n_outer, n_inner = len(log_outer), len(log_inner)
-    want_inner = 0 if inner == 1 else outer * inner
-    if n_outer != outer or n_inner != want_inner:
+    inner_ok = n_inner == outer * inner or (inner == 1 and n_inner == 0)    # inner_steps=1 may skip the inner scan
+    if n_outer != outer or not inner_ok:
       return out.fail(what='scan functions were not iterated outer / outer*inner times',
-                      outer_iterations=n_outer, inner_iterations=n_inner, want=[outer, want_inner])
+                      outer_iterations=n_outer, inner_iterations=n_inner, want=[outer, outer * inner])
   return out
 
 
 @st.composite
 def _repeated_strategy(draw):
-  return {'steps': draw(st.integers(0, 9)), 'struct': draw(st.sampled_from(['dict', 'tuple', 'nested'])),
+  return {'steps': draw(st.sampled_from([2, 0, 1, 3, 4, 5, 6, 7, 8, 9, 2, 3])), 'struct': draw(st.sampled_from(['dict', 'tuple', 'nested'])),
           'scan': draw(st.sampled_from(['lax', 'pyloop', 'nested'])), 'fact': draw(st.integers(0, 5)),
           **_shape_keys(draw(st.sampled_from(_SHAPES))),
           'seed': draw(st.integers(0, 10**6))}
@@ -339,7 +338,7 @@ def run_repeated(case):
 
 @st.composite
 def _filters_strategy(draw):
-  nf = draw(st.integers(0, 4))
+  nf = draw(st.sampled_from([2, 0, 1, 3, 4, 2, 3]))
   return {'filters': [{'kind': draw(st.sampled_from(['scale', 'shift', 'mix_prev', 'square'])),
                        'c': draw(st.floats(-0.9, 0.9).map(lambda x: round(x, 3)))} for _ in range(nf)],
           'struct': draw(st.sampled_from(['dict', 'tuple', 'nested'])),
@@ -450,12 +449,12 @@ def _nested_cases(tier):
 
 @st.composite
 def _nested_strategy(draw):
-  nf = draw(st.integers(1, 4))
+  nf = draw(st.sampled_from([2, 3, 4, 1, 3]))
   ls = []
   prod = 1
   for _ in range(nf):
-    f = draw(st.integers(1, 5))
-    if prod * f > 30:
+    f = draw(st.sampled_from([2, 3, 1, 2, 4, 5]))
+    if prod * f > 24:
       f = 1
     prod *= f
     ls.append(f)
@@ -669,10 +668,10 @@ _INTEGRATORS = ['backward_forward_euler', 'crank_nicolson_rk2', 'crank_nicolson_
 
 @st.composite
 def _dfi_strategy(draw):
-  return {'integrator': draw(st.sampled_from(_INTEGRATORS)), 'N': draw(st.integers(1, 8)),
+  return {'integrator': draw(st.sampled_from(_INTEGRATORS)), 'N': draw(st.sampled_from([2, 1, 3, 4, 5, 6, 8])),
           'dt': draw(st.sampled_from([0.01, 0.05, 0.1, 0.25, 0.3])),
           'cutoff_ratio': draw(st.sampled_from([0.5, 1.0, 1.0, 1.7, 3.0])),
-          'omega': round(draw(st.floats(0.2, 6.0)), 3), 'split': draw(st.sampled_from(['explicit', 'implicit', 'both'])),
+          'omega': round(draw(st.floats(0.2, 6.0)), 3), 'split': draw(st.sampled_from(['both', 'implicit', 'explicit'])),
           'nonlinear': round(draw(st.sampled_from([0.0, 0.3])), 3), 'filter': draw(st.sampled_from(['none', 'damp', 'two'])),
           'dim': draw(st.sampled_from([2, 3, 4])), 'mode': draw(st.sampled_from(['oscillator', 'oscillator', 'steady'])),
           'seed': draw(st.integers(0, 10**6))}
@@ -787,39 +786,39 @@ def run_dfi(case):
 
 SUBCHECKS = [
     Subcheck('trajectory_splits_exhaustive', run_trajectory, cases=_traj_cases,
-             shards={'quick': 2, 'thorough': 6}, wall={'quick': 900.0, 'thorough': 3000.0}, weight=3,
+             shards={'quick': 2, 'thorough': 6}, wall={'quick': 300.0, 'thorough': 2400.0}, weight=3,
              rule='non-trivial = outer >= 2 and inner >= 2 (frame selection and inner repeat both matter)',
              doc='all (outer 0..6, inner 1..6, start_with_input) splits: frames, final state, scan iteration counts'),
     Subcheck('trajectory_random', run_trajectory, strategy=lambda tier: _traj_strategy(),
              examples={'quick': 80, 'thorough': 1500}, shards={'quick': 2, 'thorough': 8},
-             wall={'quick': 900.0, 'thorough': 3000.0}, weight=3,
+             wall={'quick': 300.0, 'thorough': 2400.0}, weight=3,
              rule='non-trivial = outer >= 2 and inner >= 2',
              doc='Hypothesis-drawn step functions, pytree structures, post-processing, custom scan functions'),
     Subcheck('repeated_n', run_repeated, strategy=lambda tier: _repeated_strategy(),
              examples={'quick': 50, 'thorough': 800}, shards={'quick': 1, 'thorough': 4},
-             wall={'quick': 900.0, 'thorough': 3000.0},
+             wall={'quick': 300.0, 'thorough': 2400.0},
              rule='non-trivial = steps >= 2', doc='repeated(fn, n)(x) == n sequential applications (n = 0..9)'),
     Subcheck('filters_in_order', run_filters, strategy=lambda tier: _filters_strategy(),
-             examples={'quick': 50, 'thorough': 800}, shards={'quick': 1, 'thorough': 4},
-             wall={'quick': 900.0, 'thorough': 3000.0},
+             examples={'quick': 50, 'thorough': 800}, shards={'quick': 2, 'thorough': 4},
+             wall={'quick': 300.0, 'thorough': 2400.0},
              rule='non-trivial = at least two different (non-commuting) filters',
              doc='step_with_filters applies filters once each, in order, with (u, running u_next), after every step'),
     Subcheck('nested_scan_factorisations', run_nested, cases=_nested_cases,
-             shards={'quick': 3, 'thorough': 8}, wall={'quick': 900.0, 'thorough': 3000.0}, weight=5,
+             shards={'quick': 3, 'thorough': 8}, wall={'quick': 300.0, 'thorough': 2400.0}, weight=5,
              rule='non-trivial = at least two factors > 1 (a genuine reshape + concatenation)',
              doc='every ordered factorisation of every length: carry, stacked outputs, gradients vs loop and flat scan'),
     Subcheck('nested_scan_random', run_nested, strategy=lambda tier: _nested_strategy(),
-             examples={'quick': 16, 'thorough': 400}, shards={'quick': 1, 'thorough': 8},
-             wall={'quick': 900.0, 'thorough': 3000.0}, weight=4,
+             examples={'quick': 12, 'thorough': 400}, shards={'quick': 2, 'thorough': 8},
+             wall={'quick': 300.0, 'thorough': 2400.0}, weight=4,
              rule='non-trivial = at least two factors > 1',
              doc='Hypothesis-drawn nested_lengths (incl. several unit factors), scan bodies, carries'),
     Subcheck('accumulate_weighted', run_accumulate, strategy=lambda tier: _accumulate_strategy(),
              examples={'quick': 60, 'thorough': 1000}, shards={'quick': 1, 'thorough': 4},
-             wall={'quick': 900.0, 'thorough': 3000.0},
+             wall={'quick': 300.0, 'thorough': 2400.0},
              rule='non-trivial = >= 3 weights, not all equal', doc='accumulate_repeated == sum_i w_i f^i(x)'),
     Subcheck('dfi_defining_sum', run_dfi, strategy=lambda tier: _dfi_strategy(),
              examples={'quick': 40, 'thorough': 600}, shards={'quick': 2, 'thorough': 6},
-             wall={'quick': 900.0, 'thorough': 3000.0}, weight=2,
+             wall={'quick': 300.0, 'thorough': 2400.0}, weight=2,
              rule='non-trivial = N >= 2 and (steady state, or implicit part / nonlinearity present)',
              doc='DFI == normalised Lanczos sum over forward and independently built time-reversed runs; steady state fixed'),
 ]
